@@ -387,4 +387,73 @@ theorem replay_detected_only_requests_handshake (auth : Entry → SecretView →
     · simp [ha, requestHandshake]
     · simp [ha]
 
+/-- END TO END (ideal MAC): the peer of one entry sealed exactly one StaleKey / ReplayDetected packet;
+    every other datagram handed to `on_possible_secret_control_packet` leaves the map as it was. -/
+theorem forged_wire_no_state_change (s : State) (i : SecretIn) (hk : i.kind ≠ .unknownPathSecret)
+    (owner : List Nat) (b : List Nat) (hb : b ≠ encodeSecret i) :
+    ∀ r, onPossibleSecretControlPacket (idealAuth [(owner, secretSealCall i)]) s b = some r → r.1 = s := by
+  intro r hr
+  unfold onPossibleSecretControlPacket at hr
+  split at hr
+  · simp at hr
+  · rename_i v tail hd
+    split at hr
+    · rename_i htail
+      simp only [Option.some.injEq] at hr
+      rw [← hr]
+      apply forged_control_no_state_change
+      intro e _
+      have htl : tail = [] := by simpa using htail
+      subst htl
+      obtain ⟨k, hk'⟩ := decodeSecretControl_inv b [] v hd
+      obtain ⟨hcons, _, hkind⟩ := decodeSecret_consumes k b [] v hk'
+      unfold idealAuth
+      simp only [List.any_cons, List.any_nil, Bool.or_false, Bool.and_eq_false_imp, beq_iff_eq]
+      intro _
+      apply beq_eq_false_iff_ne.mpr
+      intro hcall
+      apply hb
+      unfold secretSealCall secretOpenCall at hcall
+      cases hik : i.kind with
+      | unknownPathSecret => exact absurd hik hk
+      | staleKey =>
+        rw [hik] at hcall
+        cases hvk : v.kind with
+        | unknownPathSecret => rw [hvk] at hcall; simp at hcall
+        | staleKey =>
+          rw [hvk] at hcall
+          simp only [CryptoCall.mk.injEq, true_and, and_true] at hcall
+          rw [hcons, ← hcall.1, ← hcall.2]; simp [encodeSecret]
+        | replayDetected =>
+          rw [hvk] at hcall
+          simp only [CryptoCall.mk.injEq, true_and, and_true] at hcall
+          rw [hcons, ← hcall.1, ← hcall.2]; simp [encodeSecret]
+      | replayDetected =>
+        rw [hik] at hcall
+        cases hvk : v.kind with
+        | unknownPathSecret => rw [hvk] at hcall; simp at hcall
+        | staleKey =>
+          rw [hvk] at hcall
+          simp only [CryptoCall.mk.injEq, true_and, and_true] at hcall
+          rw [hcons, ← hcall.1, ← hcall.2]; simp [encodeSecret]
+        | replayDetected =>
+          rw [hvk] at hcall
+          simp only [CryptoCall.mk.injEq, true_and, and_true] at hcall
+          rw [hcons, ← hcall.1, ← hcall.2]; simp [encodeSecret]
+    · simp at hr
+
+/-- non-vacuity of the end-to-end statement, and the other direction on a concrete map: the one
+    sealed StaleKey packet does advance the named sender (5 -> 900), one flipped bit anywhere in a
+    copy of it (here: the value field) does not -/
+example :
+    let id := List.replicate 16 1
+    let e : Entry := ⟨id, 0, 5, Dc.ReplayWindow.init, true, true⟩
+    let s : State := ⟨[e], [(0, id)], [], true, false⟩
+    let i : SecretIn := ⟨.staleKey, id, 0, none, 900, List.replicate 16 0xA5⟩
+    let auth := idealAuth [(id, secretSealCall i)]
+    (onPossibleSecretControlPacket auth s (encodeSecret i)).map (fun r => r.1.entries.map (·.currentId)) = some [900]
+      ∧ (onPossibleSecretControlPacket auth s (mutate (encodeSecret i) (.xor 19 1))).map
+          (fun r => r.1.entries.map (·.currentId)) = some [5] := by
+  decide
+
 end Quic.Proofs.C18
